@@ -164,6 +164,121 @@ impl<'a> Ctx<'a> {
     }
 }
 
+// ---------------------------------------------------------------------------------------------
+// consumers: project layouts through the real CLI (schema import specifier, source-map `sources`)
+
+fn ts_candidates(spec_path: &std::path::Path) -> Vec<std::path::PathBuf> {
+    let s = spec_path.to_string_lossy().to_string();
+    let mut out = vec![];
+    let maps: [(&str, &[&str]); 3] = [(".js", &[".ts", ".tsx", ".d.ts"]), (".mjs", &[".mts", ".d.mts"]), (".cjs", &[".cts", ".d.cts"])];
+    for (js, tss) in maps.iter() {
+        if let Some(stem) = s.strip_suffix(js) {
+            for t in tss.iter() {
+                out.push(std::path::PathBuf::from(format!("{stem}{t}")));
+            }
+        }
+    }
+    for t in [".ts", ".tsx", ".d.ts"] {
+        out.push(std::path::PathBuf::from(format!("{s}{t}")));
+        out.push(std::path::PathBuf::from(format!("{s}/index{t}")));
+    }
+    out
+}
+
+fn layouts(args: &Args, rep: &mut Report, rng: &mut Rng) {
+    let cli = args.extra.get("cli").cloned().unwrap_or_default();
+    if cli.is_empty() || !std::path::Path::new(&cli).exists() {
+        rep.notes.push("layout stream skipped: CLI binary not available".into());
+        return;
+    }
+    let schema_outs = [
+        "generated/schema.d.ts", "schema.d.ts", "src/generated/deep/schema.d.ts", "src/ops/schema.d.ts", ".generated/schema.d.ts", "src/.hidden/types/schema.d.ts",
+        "out/schema.ts", "out/schema.mts", "out/schema.d.cts", "src/ops/nested/.gen/schema.d.mts", "src/..meta/schema.d.ts",
+    ];
+    let op_dir_sets: [&[&str]; 5] = [&["src/ops"], &["src/ops", "src/ops/nested"], &["src/ops", "other/dir/deep"], &[".", "src/a/b/c"], &["src/ops", "src/.hidden"]];
+    let n = args.budget(14, 55);
+    for i in 0..n {
+        let so = if i < schema_outs.len() { schema_outs[i] } else { schema_outs[rng.below(schema_outs.len())] };
+        let ods = if i < op_dir_sets.len() { op_dir_sets[i] } else { op_dir_sets[rng.below(op_dir_sets.len())] };
+        let mode = nvh::gen::MODES[rng.below(3)];
+        let dir = nvh::cli::fresh_dir(&args.scratch, &format!("layout{i}"));
+        let mut pr = nvh::cli::Project::default();
+        pr.add("schema/a.graphql", "type Query { me: User! }\n");
+        pr.add("schema/sub/b.graphql", "type User { id: ID! name: String }\n");
+        let mut docs_globs = vec![];
+        for (k, od) in ods.iter().enumerate() {
+            let prefix = if *od == "." { String::new() } else { format!("{od}/") };
+            pr.add(&format!("{prefix}q{k}.graphql"), &format!("query Q{k} {{ me {{ id ...F{k} }} }}\nfragment F{k} on User {{ name }}\n"));
+            docs_globs.push(format!("{prefix}q{k}.graphql"));
+        }
+        let docs_yaml: String = docs_globs.iter().map(|g| format!("  - \"{g}\"\n")).collect();
+        let cfg = format!(
+            "schema: \"schema/**/*.graphql\"\ndocuments:\n{docs_yaml}extensions:\n  nitrogql:\n    generate:\n      mode: {mode}\n      schemaOutput: \"{so}\"\n"
+        );
+        pr.add("graphql.config.yaml", &cfg);
+        pr.write(&dir);
+        let run = nvh::cli::run_cli(&cli, &dir, &["generate"], &[], std::time::Duration::from_secs(30));
+        rep.evaluations += 1;
+        rep.o_cases += 1;
+        let case = json!({"layout": {"schemaOutput": so, "opDirs": ods, "mode": mode}});
+        if run.code != Some(0) {
+            rep.fail("O", "layout:cli-failed", &format!("generate exits {:?} on a valid project: {}", run.code, run.stderr.chars().take(300).collect::<String>()), case);
+            continue;
+        }
+        rep.nontrivial(&format!("layout|{so}|{ods:?}|{mode}"));
+        rep.count(&format!("layout-mode:{mode}"));
+        let files = nvh::cli::snapshot(&dir);
+        let schema_abs = nvh::cli::lexical_normalize(&dir.join(so));
+        let inputs: Vec<std::path::PathBuf> = files.keys().filter(|k| k.ends_with(".graphql")).map(|k| nvh::cli::lexical_normalize(&dir.join(k))).collect();
+        for (rel, bytes) in &files {
+            let abs = dir.join(rel);
+            let base = abs.parent().unwrap().to_path_buf();
+            let text = String::from_utf8_lossy(bytes).to_string();
+            if (rel.ends_with(".graphql.ts") || rel.ends_with(".graphql.d.ts")) && !rel.ends_with(".map") {
+                // schema import specifier
+                match nvh::tsparse::parse_file(&text) {
+                    Err(e) => rep.fail("O", "layout:decl-unparsable", &format!("{rel}: {}", e.msg), case.clone()),
+                    Ok(tree) => {
+                        let mut found = false;
+                        for st in tree.args() {
+                            if st.head() == Some("import") && st.args().get(2).and_then(|w| w.head()) == Some("star") {
+                                found = true;
+                                let spec = st.args()[0].as_str().unwrap_or("").to_string();
+                                if !(spec.starts_with("./") || spec.starts_with("../")) {
+                                    rep.fail("O", "specifier:not-relative", &format!("{rel}: schema import specifier {spec:?} does not start with ./ or ../ (it would be resolved as a package)"), case.clone());
+                                }
+                                let target = nvh::cli::lexical_normalize(&base.join(&spec));
+                                let cands = ts_candidates(&target);
+                                if !cands.iter().any(|c| *c == schema_abs) {
+                                    rep.fail("O", "specifier:wrong-file", &format!("{rel}: schema import specifier {spec:?} resolves to {target:?}[.ts|.d.ts…], not to the schema declaration {schema_abs:?}"), case.clone());
+                                }
+                            }
+                        }
+                        if !found {
+                            rep.fail("O", "layout:no-schema-import", &format!("{rel}: no `import type * as Schema`"), case.clone());
+                        }
+                    }
+                }
+            }
+            if rel.ends_with(".map") {
+                match serde_json::from_str::<serde_json::Value>(&text) {
+                    Err(e) => rep.fail("O", "layout:map-not-json", &format!("{rel}: {e}"), case.clone()),
+                    Ok(v) => {
+                        for src in v["sources"].as_array().cloned().unwrap_or_default() {
+                            let s = src.as_str().unwrap_or("").to_string();
+                            let target = nvh::cli::lexical_normalize(&base.join(&s));
+                            if !inputs.contains(&target) {
+                                rep.fail("O", "sources:wrong-file", &format!("{rel}: sources entry {s:?} resolves to {target:?}, which is not an input GraphQL file"), case.clone());
+                            }
+                        }
+                    }
+                }
+            }
+        }
+        let _ = std::fs::remove_dir_all(&dir);
+    }
+}
+
 fn main() {
     let args = Args::parse();
     quiet_panics();
@@ -174,6 +289,13 @@ fn main() {
     if let Some(path) = &args.replay {
         let v: serde_json::Value = serde_json::from_str(&std::fs::read_to_string(path).expect("replay file")).expect("replay json");
         let c = &v["case"];
+        if c.get("layout").is_some() {
+            let mut rng = Rng::new(args.seed);
+            drop(ctx);
+            layouts(&args, &mut rep, &mut rng);
+            rep.write(&args);
+            return;
+        }
         ctx.pairs(&[(c["from"].as_str().unwrap().to_string(), c["to"].as_str().unwrap().to_string())]);
         rep.write(&args);
         return;
@@ -184,21 +306,24 @@ fn main() {
         ("/path/to/main.graphql", "/path/to/sub/../../frag1.graphql"), ("a/b", "/c"), ("/c", "a/b"), ("../a", "b"), ("./a/./b", "./c")];
     ctx.pairs(&corpus.iter().map(|(a, b)| (a.to_string(), b.to_string())).collect::<Vec<_>>());
 
-    let depth = args.budget(3, 5);
-    let paths = enumerate_paths(depth, &["a", "b", ".", ".."]);
-    let mut batch = vec![];
-    for a in &paths {
-        for b in &paths {
-            batch.push((a.clone(), b.clone()));
-            if batch.len() >= 20000 {
-                ctx.pairs(&batch);
-                batch.clear();
+    // exhaustive families: the property's alphabet {a, b, ., ..}, and one with dot-prefixed ordinary names
+    let families: [(&[&str], usize); 2] = [(&["a", "b", ".", ".."], args.budget(3, 5)), (&["a", ".h", "..m", ".", ".."], args.budget(3, 4))];
+    for (segs, depth) in families.iter() {
+        let paths = enumerate_paths(*depth, segs);
+        let mut batch = vec![];
+        for a in &paths {
+            for b in &paths {
+                batch.push((a.clone(), b.clone()));
+                if batch.len() >= 20000 {
+                    ctx.pairs(&batch);
+                    batch.clear();
+                }
             }
         }
+        ctx.pairs(&batch);
+        ctx.rep.count_n("exhaustive-paths", paths.len() as u64);
+        ctx.rep.extra.insert(format!("exhaustive_depth_{}", segs.len()), json!(depth));
     }
-    ctx.pairs(&batch);
-    ctx.rep.count_n("exhaustive-paths", paths.len() as u64);
-    ctx.rep.extra.insert("exhaustive_depth".into(), json!(depth));
 
     let mut rng = Rng::new(args.seed);
     let nrand = args.budget(20000, 200000);
@@ -215,6 +340,7 @@ fn main() {
     }
     ctx.pairs(&batch);
     rep.sample(json!({"from": "/a/../b", "to": "/a/b/./.."}));
+    layouts(&args, &mut rep, &mut rng);
     rep.exhaustive = true;
     rep.write(&args);
 }
